@@ -124,7 +124,7 @@ pub fn run(s: &Session) {
     s.forall(
         "value-conservation",
         s.pick(60_000, 1_500_000),
-        || (gen::spec(), tweak()).prop_map(|(spec, (tw, kind))| Case { spec, tw, kind }),
+        || (gen::spec_early(), tweak()).prop_map(|(spec, (tw, kind))| Case { spec, tw, kind }),
         check,
     );
 }
